@@ -166,6 +166,7 @@ pub fn cut_by_stop_on_nonmatch(case: &CtxCase) -> bool {
 
 pub fn check_case(case: &CtxCase, legs: &[LegSpec], rep: &mut Report) {
     rep.evaluations += 1;
+    crate::report::set_engine_probe(&[case.pattern.clone()], &case.flags(false), &[&case.input]);
     let reference = match run_spec(case, &LegSpec { leg: Leg::Slice, multiline: false }) {
         Ok(o) => o,
         Err(e) => {
